@@ -1,6 +1,6 @@
 (** C19 — property theorems only.  Each is closed by [exact] of a lemma proved in C19_Proofs*.v. *)
 From Coq Require Import ZArith List Reals Sorting.Permutation Sorting.Sorted.
-From LP Require Import Num NumR OrdLaws C19_Model C19_Proofs C19_Proofs_Lists C19_Proofs_Stats C19_Proofs_Overloads.
+From LP Require Import Num NumR OrdLaws C19_Model C19_Proofs C19_Proofs_Lists C19_Proofs_Stats C19_Proofs_Overloads C19_Proofs_Session.
 Import ListNotations.
 
 (** ** Workload_Distribution(workers,tasks): workers+1 non-decreasing indices from 0 to tasks whose
@@ -351,3 +351,28 @@ Theorem C19_weighted_default_weights (l : list R) :
   (arithmetic_mean ROps l, standard_deviation ROps l / sqrt (INR (length l))).
 Proof. exact (weighted_default_weights l). Qed.
 Print Assumptions C19_weighted_default_weights.
+
+(** ** Sessions: the helpers are functions of their arguments alone.  "meet their specs" for every call of a process, not
+    only the first one in a pristine process: whatever ambient state (errno, floating-point exception flags, stream
+    state) the process is in, whatever earlier requests or unrelated events [h] left behind ([leaves] is arbitrary),
+    the k-th answer of a session is the answer of the same request alone in any other state [a0] *)
+Theorem C19_session_answers_are_fresh_answers {Amb Req Out : Type} (answer : Req -> Out) (leaves : Req -> Amb -> Amb)
+  (a a0 : Amb) (rs : list Req) (k : nat) (r : Req) :
+  nth_error rs k = Some r ->
+  nth_error (session answer leaves a rs) k = nth_error (session answer leaves a0 (r :: nil)) 0.
+Proof. exact (session_answer_fresh answer leaves a a0 rs k r). Qed.
+Print Assumptions C19_session_answers_are_fresh_answers.
+
+Theorem C19_session_history_independent {Amb Req Out : Type} (answer : Req -> Out) (leaves leaves' : Req -> Amb -> Amb)
+  (a a' : Amb) (h h' : list Req) (r : Req) :
+  last (session answer leaves a (h ++ r :: nil)) (answer r) = last (session answer leaves' a' (h' ++ r :: nil)) (answer r).
+Proof. exact (session_history_independent answer leaves leaves' a a' h h' r). Qed.
+Print Assumptions C19_session_history_independent.
+
+(* the same request repeated in one session (first call after an event, second call) gets the same answer *)
+Theorem C19_session_repeat {Amb Req Out : Type} (answer : Req -> Out) (leaves : Req -> Amb -> Amb)
+  (a : Amb) (rs : list Req) (i j : nat) (r : Req) :
+  nth_error rs i = Some r -> nth_error rs j = Some r ->
+  nth_error (session answer leaves a rs) i = nth_error (session answer leaves a rs) j.
+Proof. exact (session_repeat answer leaves a rs i j r). Qed.
+Print Assumptions C19_session_repeat.
